@@ -38,6 +38,8 @@ def run(ck):
             dumps.append(d)
             a += ["--dump", d]
         jobs.append(dict(exe=asan, args=a, label="all%d" % i, timeout=7200))
+    # separate input class: API-built values that JSON text cannot carry (NaN, infinities, strings that are not UTF-8)
+    jobs.append(dict(exe=asan, args=["--mode", "writer", "--cases", max(50, n // 10), "--seed", sa.subseed(ck, 77), "--odd"], label="odd", timeout=7200))
     sa.run_jobs(ck, jobs, sets=("docs",))
     for d in dumps:
         if not os.path.exists(d):
